@@ -527,7 +527,7 @@ func c04Sparse(j *rt.Job, x *c04Ctx) {
 	rng, r := x.rng, x.r
 	// heights the scheme does not support (0, 2, and odd ones squeezed into the size): a triple that would be
 	// consistent for such a tree must not be accepted
-	for _, h := range []int{2, 1, 3} {
+	for _, h := range []int{2, 1, 3, 0} {
 		for hf := 0; hf < 3; hf++ {
 			sec := xmssref.Expand(rng.Bytes(48))
 			for idx := uint32(0); idx < uint32(1)<<uint(h); idx++ {
